@@ -9,6 +9,7 @@ import (
 	"crypto/elliptic"
 	"crypto/rand"
 	"crypto/rsa"
+	_ "embed"
 	"encoding/base64"
 	"encoding/hex"
 	"encoding/json"
@@ -349,6 +350,32 @@ func fileKeys() []fileKey {
 			}
 			add(k, true)
 		}
+		// RSA keys of other sizes than the 2048 bits the library generates (committed test keys, testdata/):
+		// 4096 and 4608 bits, private and public, and the 4096-bit modulus spelled with a leading zero octet
+		// (what some big-integer libraries emit; the JOSE library keeps the octets as given). Size is not
+		// part of the rule: RSA + PS512 is an approved pair.
+		for _, f := range []string{"rsa4096.json", "rsa4608.json"} {
+			b := map[string][]byte{"rsa4096.json": rsa4096JSON, "rsa4608.json": rsa4608JSON}[f]
+			k, err := jwk.ParseKey(b)
+			must(err)
+			add(k, true)
+			pk, err := jwk.PublicKeyOf(k)
+			must(err)
+			must(pk.Set(jwk.KeyIDKey, k.KeyID()+"-pub"))
+			must(pk.Set(jwk.AlgorithmKey, jwa.PS512))
+			add(pk, true)
+			if f == "rsa4096.json" {
+				var members map[string]any
+				must(json.Unmarshal(b, &members))
+				raw, err := base64.RawURLEncoding.DecodeString(members["n"].(string))
+				must(err)
+				pm := map[string]any{"kty": "RSA", "alg": "PS512", "kid": "rsa-4096-leading-zero", "e": members["e"], "n": base64.RawURLEncoding.EncodeToString(append([]byte{0}, raw...))}
+				pb, _ := json.Marshal(pm)
+				if zk, err := jwk.ParseKey(pb); err == nil && zk.Validate() == nil {
+					add(zk, true)
+				}
+			}
+		}
 		// valid keys published without a `kid` (a key set exported without ids)
 		for i, p := range keys.Pool() {
 			if p.PrivSet == nil || i%2 == 0 {
@@ -458,6 +485,12 @@ func fileKeys() []fileKey {
 }
 
 var brokenKeys int
+
+//go:embed testdata/rsa4096.json
+var rsa4096JSON []byte
+
+//go:embed testdata/rsa4608.json
+var rsa4608JSON []byte
 
 var recBroken = ev.New("TestStructurallyBrokenKeysRejected", "every private and public key of the pool with ONE member of its key material (n, e, d, x, y) emptied or halved, declaring its approved algorithm, that the JOSE library still decodes and whose own structural check (jwk.Key.Validate) fails: jwkutil.Validate must reject it - whichever half of the key the defect is in; non-trivial = the defect is in the private member `d`; distinct by construction")
 
